@@ -558,6 +558,7 @@ func checkC19(P *Program, r *Result, tier string) {
 		g := ""
 		okNilRet, okCall := false, false
 		detail := ""
+		stray := ""
 		for _, ret := range returnsOf(fn) {
 			v := ret.Results[0]
 			if c := asCall(v); c != nil && !c.Common().IsInvoke() {
@@ -598,8 +599,15 @@ func checkC19(P *Program, r *Result, tier string) {
 			if ld, isLd := v.(*ssa.UnOp); isLd && ld.Op == token.MUL {
 				if eg, isG := ld.X.(*ssa.Global); isG && newAnalysis(P).nonNilGlobal(eg) {
 					okNilRet = true
+					continue
 				}
 			}
+			// anything else answers without asking the registered callback
+			stray = "the return at " + P.pos(instrPos(ret)) + " is neither the callback's own result nor the not-registered error"
+		}
+		if stray != "" {
+			okCall = false
+			detail = stray
 		}
 		if g != "" {
 			if prev, dup := usedG[g]; dup {
@@ -813,6 +821,26 @@ func checkC18(P *Program, r *Result, tier string) {
 			}
 		}
 		r.add("PREPEND", shortName(fn), "return", "plain error ⇒ errors.New(prepend+err.Error()) after all assertions failed", P.pos(fn.Pos()), good, "")
+		// no other way out: every result is a freshly built error (one of the branches above)
+		stray := ""
+		for _, ret := range returnsOf(fn) {
+			v := stripIface(ret.Results[0])
+			var srcs []ssa.Value
+			if ph, isPhi := v.(*ssa.Phi); isPhi {
+				for _, e := range ph.Edges {
+					srcs = append(srcs, stripIface(e))
+				}
+			} else {
+				srcs = []ssa.Value{v}
+			}
+			for _, sv := range srcs {
+				c := asCall(sv)
+				if c == nil || c.Common().StaticCallee() == nil || !strings.HasPrefix(c.Common().StaticCallee().Name(), "New") {
+					stray = "the return at " + P.pos(instrPos(ret)) + " hands back something that is not built by one of the branches (e.g. the argument itself, without the prefix)"
+				}
+			}
+		}
+		r.add("PREPEND", shortName(fn), "return", "every result is built by one of the branches: the prefix is never dropped", P.pos(fn.Pos()), stray == "", stray)
 	}
 	wrapHelperRule(P, r, rel)
 	if fn := P.Method(rel, "ProtocolException", "Unwrap"); r.require("ProtocolException.Unwrap", fn != nil) {
